@@ -671,6 +671,7 @@ class Server(base_server.BaseServer):
             self._handle_disconnect(eio_sid, n, reason)
         if eio_sid in self.environ:
             del self.environ[eio_sid]
+        self._binary_packet.pop(eio_sid, None)
 
     def _engineio_server_class(self):
         return engineio.Server
